@@ -223,6 +223,11 @@ func (dl *datalog) put(key []byte, value []byte) (uint16, uint32, error) {
 }
 
 func (dl *datalog) sync() error {
+	if dl.curSeg.meta.Full {
+		// Nothing is appended to a full segment.
+		// The segment may already be closed and removed by compaction.
+		return nil
+	}
 	return dl.curSeg.Sync()
 }
 
